@@ -230,6 +230,26 @@ def run(ctx):
         lines.append(f'binrunt {n} -')
         reals.append(trace_str(loop, final))
         scens.append({'n': n, 'all_reject': True})
+        # the same run level by level: the (counter, to-counter) pairs of the argv log, split where the counter is 1 again,
+        # against the model's `level n chunk` (the object of C15.level_tiles) for chunk = n, n/2, …, 1
+        tr_ = [a for a in cl if any(x.startswith('--transformation=') for x in a) and any(x.startswith('--to-counter=') for x in a)]
+        pairs = [(int([x for x in a if x.startswith('--counter=')][0].split('=')[1]), int([x for x in a if x.startswith('--to-counter=')][0].split('=')[1])) for a in tr_]
+        groups = []
+        for pr in pairs:
+            if pr[0] == 1 or not groups:
+                groups.append([])
+            groups[-1].append(pr)
+        c, k = n, 0
+        while c >= 1:
+            lines.append(f'level {n} {c}')
+            reals.append((' '.join(f'{a}-{b}' for a, b in groups[k]) if k < len(groups) else 'no-such-level') + ' tiles')
+            scens.append({'n': n, 'all_reject': True, 'level_chunk': c})
+            c //= 2
+            k += 1
+        if k != len(groups):
+            lines.append(f'level {n} 0')
+            reals.append(f'{len(groups)} levels in the argv log, {k} expected')
+            scens.append({'n': n, 'all_reject': True, 'levels': len(groups)})
     # tool failures: output of a failed run must not be used; STOP on 255, ERROR otherwise
     def fail_runs(count):
         for k in range(count):
